@@ -103,8 +103,9 @@ class HarnessError(Exception):
     pass
 
 
-def gen_bad_input(rng):
-    kind = rng.choice(["dup-codepoints", "dup-codepoints-files", "dup-basename-cli", "dup-name", "dup-preexisting-name", "palette-conflict", "bad-fill", "bad-spread", "too-big-bitmap", "missing-svg", "unparsable-svg", "masters-differ", "dup-basename"])
+def gen_bad_input(rng, i=None):
+    # every kind occurs in every run (stratified by case index), formats are drawn
+    kind = (lambda ks: ks[i % len(ks)] if i is not None else rng.choice(ks))(["dup-codepoints", "dup-codepoints-files", "dup-basename-cli", "dup-name", "dup-preexisting-name", "palette-conflict", "bad-fill", "bad-spread", "too-big-bitmap", "missing-svg", "unparsable-svg", "masters-differ", "dup-basename", "ignored-argument-cli"])
     fmt = rng.choice(["glyf_colr_1", "glyf_colr_0", "picosvg", "untouchedsvg", "glyf"])
     return {"case": {"kind": kind, "fmt": fmt, "seed": rng.randrange(1 << 30)}}
 
@@ -176,6 +177,34 @@ def try_build(case):
                 wrote = [f for f in os.listdir(os.path.join(d, "build")) if f.endswith((".ttf", ".otf"))] if os.path.isdir(os.path.join(d, "build")) else []
                 if r_.returncode == 0 or wrote:
                     out["font"] = f"CLI exit {r_.returncode}, wrote {wrote}"
+                else:
+                    out["raised"] = "CLI exited %d: %s" % (r_.returncode, (r_.stderr or r_.stdout)[-160:].replace("\n", " "))
+        elif kind == "ignored-argument-cli":
+            # the command line itself: a source whose name the driver does not recognise
+            # (valid SVG in a file ending .SVG, or a mistyped name) next to a valid one -- a
+            # font that silently lacks that source must not be written
+            a = _simple_glyph(rng, (0x1F600,))
+            b = _simple_glyph(rng, (0x1F601,))
+            with tempfile.TemporaryDirectory(prefix="verif_e2e_") as d:
+                odd = rng.choice(["emoji_u1f601.SVG", "emoji_u1f601.svg ", "emoji_u1f601.sgv", "emoji_u1f601"])
+                open(os.path.join(d, "emoji_u1f600.svg"), "w").write(e2e.svg_text(a))
+                open(os.path.join(d, odd), "w").write(e2e.svg_text(b))
+                files = ["emoji_u1f600.svg", odd]
+                rng.shuffle(files)
+                src = next((p_ for p_ in sys.path if p_.endswith("/src") and os.path.isdir(os.path.join(p_, "nanoemoji"))), "/repo/src")
+                env = dict(os.environ, PYTHONPATH=src, PATH="/venv/bin:" + os.environ.get("PATH", ""))
+                r_ = subprocess.run([sys.executable, "-m", "nanoemoji.nanoemoji", "--color_format", fmt, "--build_dir", os.path.join(d, "build")] + files, cwd=d, env=env, capture_output=True, text=True, timeout=600)
+                fonts = [f for f in os.listdir(os.path.join(d, "build")) if f.endswith((".ttf", ".otf"))] if os.path.isdir(os.path.join(d, "build")) else []
+                complete = False
+                if r_.returncode == 0 and fonts:
+                    from fontTools import ttLib
+
+                    complete = 0x1F601 in ttLib.TTFont(os.path.join(d, "build", fonts[0])).getBestCmap()
+                if complete:
+                    # (accepting the file and drawing it is as good as rejecting it)
+                    out["raised"] = "accepted: the font holds the source"
+                elif r_.returncode == 0 or fonts:
+                    out["font"] = f"CLI exit {r_.returncode}, wrote {fonts} without the source {odd!r}"
                 else:
                     out["raised"] = "CLI exited %d: %s" % (r_.returncode, (r_.stderr or r_.stdout)[-160:].replace("\n", " "))
         elif kind == "dup-name":
@@ -689,7 +718,17 @@ def gen_bitmap_set(rng, i=None):
         k = rng.randrange(n)
         pngs[k] = _png(rng.choice([res, res // 2 + 1]), rng.choice([res // 2, res + 8, min(250, res * 2)]), e2e._rgb(rng))
     metrics = rng.choice([dict(), dict(upem=1000, ascender=800, descender=-200, width=0), dict(upem=2048, ascender=1900, descender=-500, width=2400)])
-    over_ = dict(metrics, color_format=fmt, output_file="o.ttf", bitmap_resolution=res, keep_glyph_names=True, _pngs=pngs)
+    cfg_res = res
+    if i is not None and i % 5 == 2:
+        # the PNGs were not rendered at the configured resolution (maximum_color --bitmaps
+        # --bitmap_resolution R renders at R while its CBDT configuration keeps the default)
+        cfg_res = rng.choice([r_ for r_ in (32, 64, 128, 200) if r_ != res])
+    elif i is not None and i % 5 == 3 and fmt == "sbix":
+        # sbix strikes larger than CBDT's 8-bit limits allow
+        big = rng.choice([200, 256, 300])
+        pngs = [_png(rng.choice([big, big // 2 + 1]), big, e2e._rgb(rng)) for _ in range(n)]
+        cfg_res = big
+    over_ = dict(metrics, color_format=fmt, output_file="o.ttf", bitmap_resolution=cfg_res, keep_glyph_names=True, _pngs=pngs)
     return {"glyphs": glyphs, "overrides": over_}
 
 
@@ -749,6 +788,8 @@ def bitmap_problems(glyphs, overrides, result):
             # originOffsetY: bottom of the bitmap relative to the baseline
             if F <= 2 * cfg.upem and abs(gl.originOffsetY - cfg.descender * ppem / cfg.upem) > 1 + 1e-9:
                 bad.append((name, "sbix bottom edge", gl.originOffsetY, cfg.descender * ppem / cfg.upem))
+            if F <= 2 * cfg.upem and abs(gl.originOffsetY + h - cfg.ascender * ppem / cfg.upem) > 1 + 1e-9:
+                bad.append((name, "sbix top edge", gl.originOffsetY + h, cfg.ascender * ppem / cfg.upem))
             if abs(gl.originOffsetX - (adv_px - w) / 2) > 0.5 + 1e-9:
                 bad.append((name, "sbix horizontal centring", gl.originOffsetX))
     return bad
@@ -839,13 +880,25 @@ def gen_cli_options(rng, i=None):
     # in the file (the flag must win)
     by_flag = set(rng.sample(names, rng.randint(0, len(names))))
     both = set(rng.sample(sorted(by_flag), min(len(by_flag), rng.randint(0, 3))))
-    return {"glyphs": a["glyphs"], "overrides": o, "by_flag": sorted(by_flag), "both": sorted(both)}
+    return {"glyphs": a["glyphs"], "overrides": o, "by_flag": sorted(by_flag), "both": sorted(both), "user_fea": None}
+
+
+def k14_witness():
+    import random
+
+    a = gen_cli_options(random.Random(14), 0)
+    a["overrides"]["keep_glyph_names"] = True
+    a["overrides"]["color_format"] = "glyf_colr_1"
+    a["by_flag"], a["both"] = ["keep_glyph_names"], []
+    # a user feature file, given with the documented --fea_file option
+    a["user_fea"] = "feature ss01 { sub g_1f600 by g_1f601; } ss01;\n"
+    return a
 
 
 _OTHER = dict(family="Other Family", upem=512, ascender=444, descender=-111, linegap=77, width=321, version_major=42, version_minor=7, keep_glyph_names=None, clipbox_quantization=3, color_format="glyf", transform=None)
 
 
-def run_cli_options(glyphs, overrides, by_flag, both):
+def run_cli_options(glyphs, overrides, by_flag, both, user_fea=None):
     from fontTools import ttLib
 
     def toml_value(k, v):
@@ -889,6 +942,9 @@ def run_cli_options(glyphs, overrides, by_flag, both):
                 lines.append(f"{k} = {toml_value(k, fv)}")
         lines += ["[axis.wght]", 'name = "Weight"', "default = 400", "[master.regular]", 'style_name = "Regular"', "srcs = [" + ", ".join(f'"{f}"' for f in files) + "]", "[master.regular.position]", "wght = 400"]
         open(os.path.join(d, "c.toml"), "w").write("\n".join(lines) + "\n")
+        if user_fea:
+            open(os.path.join(d, "my.fea"), "w").write(user_fea)
+            flags.append("--fea_file=" + os.path.join(d, "my.fea"))
         env = dict(os.environ, PYTHONPATH=src, PATH="/venv/bin:" + os.environ.get("PATH", ""))
         cmd = [sys.executable, "-m", "nanoemoji.nanoemoji", "--build_dir", os.path.join(d, "b")] + flags + ["c.toml"]
         r = subprocess.run(cmd, cwd=d, env=env, capture_output=True, text=True, timeout=900)
@@ -899,8 +955,24 @@ def run_cli_options(glyphs, overrides, by_flag, both):
         return {"exit": r.returncode, "font": font, "cfg": None, "stderr": (r.stdout + r.stderr)[-800:], "written": sorted(os.listdir(os.path.join(d, "b"))) if os.path.isdir(os.path.join(d, "b")) else []}
 
 
-def cli_option_problems(glyphs, overrides, by_flag, both, result):
+def cli_option_problems(glyphs, overrides, by_flag, both, result, user_fea=None):
     if result["exit"] != 0 or result["font"] is None:
         return [("the command failed or wrote no font under the requested name", result["stderr"][-300:], result["written"])]
     glyphs2 = glyphs if overrides["keep_glyph_names"] else []
-    return option_problems(glyphs2, overrides, result)
+    bad = option_problems(glyphs2, overrides, result)
+    if user_fea:
+        font = result["font"]
+        tags = {fr.FeatureTag for fr in font["GSUB"].table.FeatureList.FeatureRecord} if "GSUB" in font and font["GSUB"].table.FeatureList else set()
+        if "ss01" not in tags:
+            bad.append(("fea_file: the user's feature ss01 is not in GSUB", sorted(tags)))
+    return bad
+
+
+def k13_witness():
+    # a shape that crosses the viewBox, filled with an objectBoundingBox gradient: the driver's
+    # picosvg step clips the outline (clip_to_viewbox, the default) and the gradient is then
+    # resolved against the CLIPPED outline's box
+    stops = [(0.0, (255, 0, 0), 1.0), (1.0, (0, 0, 255), 1.0)]
+    fill = e2e.Linear((0, 0), (1, 0), stops, "objectBoundingBox", None, "pad")
+    g = e2e.GlyphSpec((0, 0, 100, 100), [e2e.Shape([(-100, 10), (100, 10), (100, 45), (-100, 45)], fill, 1.0)], (0x1F600,))
+    return {"fmt": "glyf_colr_1", "glyphs": [g], "tolerances": [0.1]}
